@@ -51,12 +51,15 @@ namespace sw { namespace universal {
 			// we shift that radix point fbits to the right.
 			// that is equivalent to a scale of 2^fbits
 			v.clear();
-			int msb = (v.nbits < p.fbits + 1) ? v.nbits : p.fbits + 1;
-			for (int i = msb-1; i >= 0; --i) {
-				v.setbit(i, significant[i]);
-			}
 			int shift = _scale - p.fbits;  // if scale > fbits we need to shift left
-			v <<= shift;
+			// if scale < fbits the low fbits - scale bits of the significant
+			// are below the radix point: they are truncated, not copied
+			int lsb = (shift < 0) ? -shift : 0;
+			int msb = (v.nbits < p.fbits + 1 - lsb) ? v.nbits : p.fbits + 1 - lsb;
+			for (int i = msb-1; i >= 0; --i) {
+				v.setbit(i, significant[i + lsb]);
+			}
+			if (shift > 0) v <<= shift;
 		}
 		if (p.isneg()) {
 			v.flip();
